@@ -49,7 +49,19 @@ def sub1(path, old, new, count=1):
     open(path, "w").write(s)
 
 
+def make_vsyncd():
+    """vsyncd = vsync with gate kinds prefixed "d." (used by the patched go-diameter so that its locks can be told apart)"""
+    src = open(os.path.join(VERIF, "vs/vsync/vsync.go")).read()
+    src = src.replace("package vsync", "package vsyncd").replace('vs.Gate("', 'vs.Gate("d.')
+    d = os.path.join(VERIF, "vs/vsyncd")
+    os.makedirs(d, exist_ok=True)
+    cur = open(os.path.join(d, "vsync.go")).read() if os.path.exists(os.path.join(d, "vsync.go")) else ""
+    if cur != src:
+        open(os.path.join(d, "vsync.go"), "w").write(src)
+
+
 def make_tp(real=False):
+    make_vsyncd()
     mc = modcache()
     tp = os.path.join(BUILD, "tp-real" if real else "tp")
     os.makedirs(tp, exist_ok=True)
@@ -68,7 +80,7 @@ def make_tp(real=False):
     shutil.copy(os.path.join(VERIF, "patches/mongoapi.go"), os.path.join(ut, "mongoapi/mongoapi.go"))
     if not real:
         shutil.copy(os.path.join(VERIF, "patches/diam_network.go"), os.path.join(gd, "diam/network.go"))
-        sub1(os.path.join(gd, "diam/server.go"), '\t"sync"\n', '\tsync "verif.local/vs/vsync"\n')
+        sub1(os.path.join(gd, "diam/server.go"), '\t"sync"\n', '\tsync "verif.local/vs/vsyncd"\n')
         # exploration builds skip the TLS record layer (kept in --real builds)
         sub1(os.path.join(gd, "diam/client.go"), "srv.newConn(tls.Client(rw, config))", "srv.newConn(rw)")
         sub1(os.path.join(gd, "diam/server.go"), "tlsListener := tls.NewListener(conn, config)", "tlsListener := conn")
@@ -108,6 +120,7 @@ def rewrite_imports(src, which, target):
 
 
 def make_overlay(repo, fine=False, real=False):
+    make_vsyncd()
     gen = os.path.join(BUILD, "gen-real" if real else "gen")
     if os.path.exists(gen):
         shutil.rmtree(gen)
